@@ -249,6 +249,10 @@ static void ReadSymbols(char const* pSrcName, int Index) {
                 PNew->RelocInfo = ReadRelocInfo(f);
                 if (!PNew->RelocInfo) {
                     ChkIO(SrcName);
+
+                    /* no I/O error: the record's contents are inconsistent */
+
+                    FormatError(SrcName, getmessage(Num_FormatRelocInfoMissing));
                 }
 
                 /* check for double-defined symbols */
